@@ -201,6 +201,9 @@ class C11(object):
             else:
                 ops.append(["query", rng.randint(0, 3)])
         case = {"debug": debug, "plans": plans, "ops": ops}
+        for n_, op in enumerate(case["ops"]):
+            if op[0] == "cancel" and op[2] is True and (n_ + op[1]) % 3 == 0:
+                op[2] = "base"
         # one history in four: every exception instance user code raises or passes in is falsy
         case["falsy_errors"] = zlib.crc32(repr(sorted(case.items())).encode()) % 4 == 0
         return case
@@ -359,7 +362,10 @@ class C11(object):
                         if rb.state == "pending":
                             finish(j, "cancel", err)
                         try:
-                            if op[2]:
+                            if op[2] == "base":
+                                # e.g. asyncio.CancelledError, KeyboardInterrupt: not an Exception
+                                b.cancel(SimBaseError("E:cancel"))
+                            elif op[2]:
                                 b.cancel(SimError("E:cancel"))
                             else:
                                 b.cancel()
